@@ -204,6 +204,24 @@ func origins(s []gen.Src) []string {
 
 func TestC12(t *testing.T) {
 	rec := ev.New("C12", "exploration")
-	rec.Rule = "rapid draws 1-5 valid xz streams (library, reference generator incl. empty and zero-block streams, liblzma, corpus), zero padding 0..16 after each (mostly multiples of 4, 1/8 arbitrary), optional leading padding, optional trailing non-zero garbage, SingleStream on/off; a model predicts (content, error?): all paddings multiples of 4, no lead, no garbage -> concatenation and nil; otherwise an error with a prefix of the concatenation; SingleStream -> exactly the first content, error iff a byte follows; non-trivial = >= 2 members with content and some padding; distinct = hash(file bytes, SingleStream)"
+	rec.Rule = "enumerated first: two streams separated by 1 MiB, 6 MiB and 6 MiB + 2 bytes of padding; then rapid draws 1-5 valid xz streams (library, reference generator incl. empty and zero-block streams, liblzma, corpus), zero padding 0..16 after each (mostly multiples of 4, 1/8 arbitrary), optional leading padding, optional trailing non-zero garbage, SingleStream on/off; a model predicts (content, error?): all paddings multiples of 4, no lead, no garbage -> concatenation and nil; otherwise an error with a prefix of the concatenation; SingleStream -> exactly the first content, error iff a byte follows; non-trivial = >= 2 members with content and some padding; distinct = hash(file bytes, SingleStream)"
+	// very long stream padding (legal: any multiple of four zero bytes): work
+	// per padding word must not pile up (on the stack or elsewhere)
+	enumerate(t, rec, checkC12, func(try func(caseC12) bool) {
+		for i, pad := range []int{1 << 20, 6 << 20, 6<<20 + 2} {
+			if i%rec.Shards != rec.Shard {
+				continue
+			}
+			a := gen.Src{Fmt: "xz", Origin: "ref", Seed: uint64(40 + i), NOps: 5, NChunks: 1, NBlocks: 1, Check: 1}
+			b := gen.Src{Fmt: "xz", Origin: "ref", Seed: uint64(50 + i), NOps: 5, NChunks: 1, NBlocks: 1, Check: 4}
+			rec.Class("very_long_padding")
+			if !try(caseC12{Srcs: []gen.Src{a, b}, Pads: []int{pad, 8}, Frag: fault.Frag{Kind: "whole"}}) {
+				return
+			}
+		}
+	})
+	if t.Failed() {
+		return
+	}
 	drive(t, rec, drawC12, checkC12)
 }
